@@ -104,6 +104,12 @@ def _lin(coefs, b):
     return lin
 
 
+def _lin_with(X, coefs=None, b=0.0):
+    k = X.shape[1]
+    c = np.resize(coefs, k) if k else np.zeros(0)
+    return X @ c + b
+
+
 def _sin(X):
     return np.sin(X).sum(axis=1)
 
@@ -133,6 +139,9 @@ def make_fn(spec, sempler_noise):
         return ParamCallable(spec[1], spec[2])
     if name == "bound":
         return Regressor(spec[1], spec[2]).predict
+    if name == "partial":
+        import functools
+        return functools.partial(_lin_with, coefs=np.array(spec[1], dtype=float), b=float(spec[2]))
     if name == "paramnoise":
         return ParamNoise(spec[1], spec[2])
     if name == "replay":
